@@ -387,6 +387,16 @@ def run(ctx):
     jobs += [("tguard_cxx", tguard_lib, "wide.hpp", tguard_hpp, {}, ((), ("-DHAVE_INT64",))),
              ("tguard_c", tguard_c, "wide.h", tguard_hpp, {}, ((), ("-DHAVE_INT64",)))]
 
+    # a C struct wrapped as a class under a class-level guard: its own header opens and closes the conditional, with and without
+    # the macro (language c and c++)
+    cguard_h = "#ifdef HAVE_POINT\nstruct Point { int x; int y; };\ntypedef struct Point Point;\n#endif\nint origin(void);\n"
+    cguard_c = {"library": "geom", "language": "c", "cxx_header": "geom.h", "options": {"wrap_lua": False, "wrap_python": False},
+                "declarations": [{"decl": "struct Point { int x; int y; };", "cpp_if": "ifdef HAVE_POINT", "options": {"wrap_struct_as": "class"}},
+                                 {"decl": "int origin(void)"}]}
+    cguard_cxx = dict(cguard_c, language="c++", cxx_header="geom.hpp")
+    jobs += [("cguard_c", cguard_c, "geom.h", cguard_h, {}, ((), ("-DHAVE_POINT",))),
+             ("cguard_cxx", cguard_cxx, "geom.hpp", "#pragma once\n" + cguard_h.replace("(void)", "()"), {}, ((), ("-DHAVE_POINT",)))]
+
     def two(j):
         return j, build_and_compile(ctx, *j)
     with ThreadPoolExecutor(vlib.NCPU) as ex:
